@@ -1,12 +1,19 @@
 #!/bin/bash
-# Regenerate coq/Gen/Consts.v from the scratch build of /repo's working tree ($VERIF_BUILD).
+# Regenerate coq/Gen/*.v from the scratch build of /repo's working tree ($VERIF_BUILD):
+# every tools/srcgen/consts*.c is compiled against the repo's own headers/flags and run;
+# consts.c -> Gen/Consts.v, consts_big.c -> Gen/ConstsBig.v, ...   Files are rewritten only when changed.
 set -e
 HERE="$(cd "$(dirname "$0")" && pwd)"; VERIF="$(cd "$HERE/../.." && pwd)"
 R="${VERIF_BUILD:?VERIF_BUILD not set}"
 T="$(mktemp -d "$R/srcgen.XXXX")"
-cc -w -DMATRIXSSL_VERIF -I"$R" -I"$R/matrixssl" -I"$R/core/config" -I"$R/core/include" -I"$R/core/osdep/include" \
-   -I"$R/core/include/sfzcl" -I"$R/crypto" "$HERE/consts.c" -o "$T/consts"
-"$T/consts" > "$T/Consts.v"
 mkdir -p "$VERIF/coq/Gen"
-if ! cmp -s "$T/Consts.v" "$VERIF/coq/Gen/Consts.v"; then cp "$T/Consts.v" "$VERIF/coq/Gen/Consts.v"; echo "Consts.v updated"; else echo "Consts.v unchanged"; fi
+for src in "$HERE"/consts*.c; do
+  b="$(basename "$src" .c)"                      # consts or consts_xyz
+  suf="${b#consts}"; suf="${suf#_}"
+  name="Consts$(echo "${suf:0:1}" | tr a-z A-Z)${suf:1}"
+  cc -w -DMATRIXSSL_VERIF -I"$R" -I"$R/matrixssl" -I"$R/core/config" -I"$R/core/include" -I"$R/core/osdep/include" \
+     -I"$R/core/include/sfzcl" -I"$R/crypto" "$src" "$R/matrixssl/libssl_s.a" "$R/crypto/libcrypt_s.a" "$R/core/libcore_s.a" -lpthread -o "$T/$b"
+  "$T/$b" > "$T/$name.v"
+  if ! cmp -s "$T/$name.v" "$VERIF/coq/Gen/$name.v"; then cp "$T/$name.v" "$VERIF/coq/Gen/$name.v"; echo "$name.v updated"; else echo "$name.v unchanged"; fi
+done
 rm -rf "$T"
